@@ -32,15 +32,175 @@ theorem RConn.read_ok (c : RConn) (p rest : Bytes) (h : c.input = p ++ rest) :
   unfold RConn.read
   simp [h]
 
-/-- parsing one well-formed header (any length form), within the limit -/
-theorem RConn.advanceFrame_ok (c : RConn) (f : Spec.LenForm) (k : Kind) (n : Nat) (rest : Bytes)
-    (hrem : c.rem = 0) (hlen : c.rlen = 0) (hin : c.input = Spec.headerWith f k n ++ rest)
-    (hfit : f.fits n) (hlim : c.limit = 0 ∨ n ≤ c.limit) :
-    c.advanceFrame = .frame k { c with input := rest, rem := n, rlen := n } := by
+/-- fields no step of `advanceFrame` ever changes -/
+structure RConn.SameCfg (c c' : RConn) : Prop where
+  tail : c'.tail = c.tail
+  limit : c'.limit = c.limit
+  err : c'.err = c.err
+  errCount : c'.errCount = c.errCount
+  cur : c'.cur = c.cur
+  closeFails : c'.closeFails = c.closeFails
+
+theorem RConn.SameCfg.refl (c : RConn) : c.SameCfg c := ⟨rfl, rfl, rfl, rfl, rfl, rfl⟩
+
+theorem RConn.SameCfg.trans {a b c : RConn} (h1 : a.SameCfg b) (h2 : b.SameCfg c) : a.SameCfg c :=
+  ⟨h2.tail.trans h1.tail, h2.limit.trans h1.limit, h2.err.trans h1.err,
+   h2.errCount.trans h1.errCount, h2.cur.trans h1.cur, h2.closeFails.trans h1.closeFails⟩
+
+theorem RConn.skip_cfg (c : RConn) :
+    (∀ c', c.skip = .ok c' → c.SameCfg c' ∧ c'.rlen = c.rlen ∧ c'.closes = c.closes) ∧
+    (∀ e c', c.skip = .error (e, c') → c.SameCfg c' ∧ c'.closes = c.closes) := by
+  unfold RConn.skip
+  constructor
+  · intro c' h
+    split at h
+    · split at h
+      · simp at h
+      · simp at h; subst h; exact ⟨⟨rfl, rfl, rfl, rfl, rfl, rfl⟩, rfl, rfl⟩
+    · simp at h; subst h; exact ⟨RConn.SameCfg.refl c, rfl, rfl⟩
+  · intro e c' h
+    split at h
+    · split at h
+      · simp at h; obtain ⟨_, rfl⟩ := h; exact ⟨⟨rfl, rfl, rfl, rfl, rfl, rfl⟩, rfl⟩
+      · simp at h
+    · simp at h
+
+theorem RConn.read_cfg (c : RConn) (n : Nat) (p : Bytes) (c' : RConn) (h : c.read n = .ok (p, c')) :
+    c.SameCfg c' ∧ c'.rlen = c.rlen ∧ c'.closes = c.closes ∧ c'.rem = c.rem := by
+  unfold RConn.read at h
+  split at h
+  · simp at h; obtain ⟨_, rfl⟩ := h; exact ⟨⟨rfl, rfl, rfl, rfl, rfl, rfl⟩, rfl, rfl, rfl⟩
+  · simp at h
+
+theorem RConn.header_cfg (c : RConn) :
+    (∀ k c', c.header = .ok (k, c') → c.SameCfg c' ∧ c'.rlen = c.rlen ∧ c'.closes = c.closes) ∧
+    (∀ e c', c.header = .error (e, c') → c.SameCfg c' ∧ c'.closes = c.closes) := by
+  unfold RConn.header RConn.readFailState
+  constructor
+  · intro k c' h
+    split at h
+    · simp at h
+    · rename_i p c1 h1
+      obtain ⟨s1, r1, cl1, _⟩ := RConn.read_cfg c 1 p c1 h1
+      simp only at h
+      split at h
+      · split at h
+        · simp at h
+        · rename_i p2 c2 h2
+          obtain ⟨s2, r2, cl2, _⟩ := RConn.read_cfg _ 2 p2 c2 h2
+          simp at h; obtain ⟨_, rfl⟩ := h
+          refine ⟨⟨?_, ?_, ?_, ?_, ?_, ?_⟩, ?_, ?_⟩ <;> simp_all [s1.tail, s2.tail, s1.limit, s2.limit,
+            s1.err, s2.err, s1.errCount, s2.errCount, s1.cur, s2.cur, s1.closeFails, s2.closeFails]
+      · split at h
+        · split at h
+          · simp at h
+          · rename_i p2 c2 h2
+            obtain ⟨s2, r2, cl2, _⟩ := RConn.read_cfg _ 8 p2 c2 h2
+            split at h
+            · simp at h
+            · simp at h; obtain ⟨_, rfl⟩ := h
+              refine ⟨⟨?_, ?_, ?_, ?_, ?_, ?_⟩, ?_, ?_⟩ <;> simp_all [s1.tail, s2.tail, s1.limit, s2.limit,
+                s1.err, s2.err, s1.errCount, s2.errCount, s1.cur, s2.cur, s1.closeFails, s2.closeFails]
+        · simp at h; obtain ⟨_, rfl⟩ := h
+          exact ⟨⟨s1.tail, s1.limit, s1.err, s1.errCount, s1.cur, s1.closeFails⟩, r1, cl1⟩
+  · intro e c' h
+    split at h
+    · simp at h; obtain ⟨_, rfl⟩ := h; exact ⟨⟨rfl, rfl, rfl, rfl, rfl, rfl⟩, rfl⟩
+    · rename_i p c1 h1
+      obtain ⟨s1, r1, cl1, _⟩ := RConn.read_cfg c 1 p c1 h1
+      simp only at h
+      split at h
+      · split at h
+        · simp at h; obtain ⟨_, rfl⟩ := h
+          exact ⟨⟨s1.tail, s1.limit, s1.err, s1.errCount, s1.cur, s1.closeFails⟩, cl1⟩
+        · simp at h
+      · split at h
+        · split at h
+          · simp at h; obtain ⟨_, rfl⟩ := h
+            exact ⟨⟨s1.tail, s1.limit, s1.err, s1.errCount, s1.cur, s1.closeFails⟩, cl1⟩
+          · rename_i p2 c2 h2
+            obtain ⟨s2, r2, cl2, _⟩ := RConn.read_cfg _ 8 p2 c2 h2
+            split at h
+            · simp at h; obtain ⟨_, rfl⟩ := h
+              refine ⟨⟨?_, ?_, ?_, ?_, ?_, ?_⟩, ?_⟩ <;> simp_all [s1.tail, s2.tail, s1.limit, s2.limit,
+                s1.err, s2.err, s1.errCount, s2.errCount, s1.cur, s2.cur, s1.closeFails, s2.closeFails]
+            · simp at h
+        · simp at h
+
+theorem RConn.checkLimit_cfg (c : RConn) (k : Kind) :
+    (∀ k' c', c.checkLimit k = .frame k' c' →
+        c.SameCfg c' ∧ c'.closes = c.closes ∧ c'.rem = c.rem ∧ c'.rlen = c.rlen + c.rem ∧
+        (c.limit > 0 → c'.rlen ≤ c.limit)) ∧
+    (∀ e c', c.checkLimit k = .fail e c' → c.SameCfg c' ∧ c'.closes = c.closes ++ [1009] ∧
+        e = (if c.closeFails then .closeFailed else .readLimit)) := by
+  unfold RConn.checkLimit
+  constructor
+  · intro k' c' h
+    simp only at h
+    split at h
+    · split at h <;> simp at h
+    · rename_i hn
+      simp at h; obtain ⟨_, rfl⟩ := h
+      refine ⟨⟨rfl, rfl, rfl, rfl, rfl, rfl⟩, rfl, rfl, rfl, ?_⟩
+      intro hl; simp only at hn ⊢; omega
+  · intro e c' h
+    simp only at h
+    split at h
+    · split at h
+      · rename_i hcf; simp at h; obtain ⟨rfl, rfl⟩ := h
+        exact ⟨⟨rfl, rfl, rfl, rfl, rfl, rfl⟩, rfl, by simp_all⟩
+      · rename_i hcf; simp at h; obtain ⟨rfl, rfl⟩ := h
+        exact ⟨⟨rfl, rfl, rfl, rfl, rfl, rfl⟩, rfl, by simp_all⟩
+    · simp at h
+
+/-- `advanceFrame` never touches tail, limit, err, errCount, cur, closeFails;
+    it closes the session (code 1009) only when it reports the limit error of
+    step 4, and a frame it hands out is within a positive limit -/
+theorem RConn.advanceFrame_cfg (c : RConn) :
+    (∀ k c', c.advanceFrame = .frame k c' →
+        c.SameCfg c' ∧ c'.closes = c.closes ∧ (c.limit > 0 → c'.rlen ≤ c.limit) ∧
+        c'.rlen = c.rlen + c'.rem) ∧
+    (∀ e c', c.advanceFrame = .fail e c' → c.SameCfg c' ∧
+        (c'.closes = c.closes ∨ c'.closes = c.closes ++ [1009])) := by
   unfold RConn.advanceFrame
-  have h0 : ¬ (c.rem > 0 ∧ c.input.length < c.rem) := by omega
-  have h0' : ¬ c.rem > 0 := by omega
-  simp only [h0, h0', if_false]
+  constructor
+  · intro k c' h
+    split at h
+    · simp at h
+    · rename_i c1 h1
+      obtain ⟨s1, r1, cl1⟩ := (RConn.skip_cfg c).1 c1 h1
+      split at h
+      · simp at h
+      · rename_i k2 c2 h2
+        obtain ⟨s2, r2, cl2⟩ := (RConn.header_cfg c1).1 k2 c2 h2
+        obtain ⟨s3, cl3, rm3, rl3, lim3⟩ := (RConn.checkLimit_cfg c2 k2).1 k c' h
+        refine ⟨s1.trans (s2.trans s3), by rw [cl3, cl2, cl1], ?_, by rw [rl3, rm3, r2, r1]⟩
+        intro hl
+        have := lim3 (by rw [s2.limit, s1.limit]; exact hl)
+        rw [s2.limit, s1.limit] at this; exact this
+  · intro e c' h
+    split at h
+    · rename_i e1 c1 h1
+      simp at h; obtain ⟨rfl, rfl⟩ := h
+      obtain ⟨s1, cl1⟩ := (RConn.skip_cfg c).2 _ _ h1
+      exact ⟨s1, Or.inl cl1⟩
+    · rename_i c1 h1
+      obtain ⟨s1, r1, cl1⟩ := (RConn.skip_cfg c).1 c1 h1
+      split at h
+      · rename_i e2 c2 h2
+        simp at h; obtain ⟨rfl, rfl⟩ := h
+        obtain ⟨s2, cl2⟩ := (RConn.header_cfg c1).2 _ _ h2
+        exact ⟨s1.trans s2, Or.inl (by rw [cl2, cl1])⟩
+      · rename_i k2 c2 h2
+        obtain ⟨s2, r2, cl2⟩ := (RConn.header_cfg c1).1 k2 c2 h2
+        obtain ⟨s3, cl3, _⟩ := (RConn.checkLimit_cfg c2 k2).2 e c' h
+        exact ⟨s1.trans (s2.trans s3), Or.inr (by rw [cl3, cl2, cl1])⟩
+
+/-- parsing one well-formed header (any length form) -/
+theorem RConn.header_ok (c : RConn) (f : Spec.LenForm) (k : Kind) (n : Nat) (rest : Bytes)
+    (hin : c.input = Spec.headerWith f k n ++ rest) (hfit : f.fits n) :
+    c.header = .ok (k, { c with input := rest, rem := n }) := by
+  unfold RConn.header
   cases f with
   | short =>
     simp only [Spec.LenForm.fits] at hfit
@@ -52,9 +212,7 @@ theorem RConn.advanceFrame_ok (c : RConn) (f : Spec.LenForm) (k : Kind) (n : Nat
     simp only [List.headD_cons, hk, hb]
     have h126 : ¬ n = 126 := by omega
     have h127 : ¬ n = 127 := by omega
-    simp only [h126, h127, if_false, hlen, Nat.zero_add]
-    have hl : ¬ (c.limit > 0 ∧ n > c.limit) := by omega
-    simp [hl, hrem]
+    simp only [h126, h127, if_false]
   | ext16 =>
     simp only [Spec.LenForm.fits] at hfit
     simp only [Spec.headerWith] at hin
@@ -67,9 +225,7 @@ theorem RConn.advanceFrame_ok (c : RConn) (f : Spec.LenForm) (k : Kind) (n : Nat
     simp only [be_length] at hr2
     rw [hr2]
     have hu : unbe (be 2 n) = n := unbe_be_of_lt 2 n (by omega)
-    simp only [hu, hlen, Nat.zero_add]
-    have hl : ¬ (c.limit > 0 ∧ n > c.limit) := by omega
-    simp [hl, hrem]
+    simp only [hu]
   | ext64 =>
     simp only [Spec.LenForm.fits] at hfit
     simp only [Spec.headerWith] at hin
@@ -86,9 +242,41 @@ theorem RConn.advanceFrame_ok (c : RConn) (f : Spec.LenForm) (k : Kind) (n : Nat
       have : (2:Nat) ^ 63 < 256 ^ 8 := by decide
       omega)
     have hm : ¬ n ≥ 2 ^ 63 := by omega
-    simp only [hu, hm, if_false, hlen, Nat.zero_add]
-    have hl : ¬ (c.limit > 0 ∧ n > c.limit) := by omega
-    simp [hl, hrem]
+    simp only [hu, hm, if_false]
+
+theorem RConn.skip_none (c : RConn) (hrem : c.rem = 0) : c.skip = .ok c := by
+  unfold RConn.skip; simp [hrem]
+
+/-- parsing one well-formed header (any length form), within the limit -/
+theorem RConn.advanceFrame_ok (c : RConn) (f : Spec.LenForm) (k : Kind) (n : Nat) (rest : Bytes)
+    (hrem : c.rem = 0) (hlen : c.rlen = 0) (hin : c.input = Spec.headerWith f k n ++ rest)
+    (hfit : f.fits n) (hlim : c.limit = 0 ∨ n ≤ c.limit) :
+    c.advanceFrame = .frame k { c with input := rest, rem := n, rlen := n } := by
+  unfold RConn.advanceFrame
+  rw [RConn.skip_none c hrem]
+  simp only
+  rw [RConn.header_ok c f k n rest hin hfit]
+  simp only
+  unfold RConn.checkLimit
+  have hl : ¬ (c.limit > 0 ∧ n > c.limit) := by omega
+  simp only [hlen, Nat.zero_add, hl, if_false]
+
+/-- an oversized well-formed header: limit error (or the close error) and the
+    session is closed with code 1009 -/
+theorem RConn.advanceFrame_over (c : RConn) (f : Spec.LenForm) (k : Kind) (n : Nat) (rest : Bytes)
+    (hrem : c.rem = 0) (hlen : c.rlen = 0) (hin : c.input = Spec.headerWith f k n ++ rest)
+    (hfit : f.fits n) (hl : c.limit > 0) (hover : n > c.limit) :
+    c.advanceFrame = .fail (if c.closeFails then .closeFailed else .readLimit)
+      { c with input := rest, rem := n, rlen := n, closes := c.closes ++ [1009] } := by
+  unfold RConn.advanceFrame
+  rw [RConn.skip_none c hrem]
+  simp only
+  rw [RConn.header_ok c f k n rest hin hfit]
+  simp only
+  unfold RConn.checkLimit
+  have hb : (c.limit > 0 ∧ n > c.limit) := by omega
+  simp only [hlen, Nat.zero_add, hb, and_self, if_true]
+  cases hcf : c.closeFails <;> simp
 
 end EIO.WT
 
@@ -170,7 +358,7 @@ theorem RConn.readMessage_end (c : RConn) (herr : c.err = none) (hrem : c.rem = 
     (hin : c.input = []) (hg : c.errCount + 1 < errGuard) :
     c.readMessage = .error c.tail.peekErr
       { c with cur := false, rlen := 0, err := some c.tail.peekErr, errCount := c.errCount + 1 } := by
-  unfold RConn.readMessage RConn.nextReader RConn.advanceFrame RConn.read RConn.readFailState
+  unfold RConn.readMessage RConn.nextReader RConn.advanceFrame RConn.skip RConn.header RConn.read RConn.readFailState
   have : ¬ (c.errCount + 1 ≥ errGuard) := by omega
   simp [herr, hrem, hin, this]
 
@@ -217,5 +405,101 @@ theorem encodeAll_length_ge (fms : List (Spec.LenForm × Msg)) :
       cases fm.1 <;> simp <;> omega
     simp only [Spec.encodeAll, List.map_cons, List.flatten_cons, List.length_append, List.length_cons] at *
     omega
+
+end EIO.WT
+
+namespace EIO.WT
+open EIO
+
+/-- one `Read` call: at most the bytes asked for, at most the bytes the frame
+    still has, taken in order from the stream; `rem` shrinks by that count;
+    a set `err` never changes -/
+theorem RConn.readMsg_bounded (c : RConn) (n : Nat) (mine : Bool) :
+    (c.readMsg n mine).data.length ≤ n ∧ (c.readMsg n mine).data.length ≤ c.rem ∧
+    (c.readMsg n mine).data = c.input.take (c.readMsg n mine).data.length ∧
+    (c.readMsg n mine).c.input = c.input.drop (c.readMsg n mine).data.length ∧
+    (c.readMsg n mine).c.rem = c.rem - (c.readMsg n mine).data.length ∧
+    (c.readMsg n mine).c.limit = c.limit ∧
+    (∀ e, c.err = some e → (c.readMsg n mine).c.err = some e) := by
+  unfold RConn.readMsg
+  by_cases h1 : (mine = true ∧ c.cur = true)
+  · simp only [h1, and_self, not_true, if_false]
+    cases he : c.err with
+    | some e => simp [he]
+    | none =>
+      simp only
+      by_cases hz : c.rem > 0
+      · simp only [hz, if_true]
+        by_cases hemp : c.input.isEmpty
+        · simp [hemp]
+        · simp only [hemp, Bool.false_eq_true, if_false]
+          simp [List.take_take]
+          omega
+      · simp [hz]
+  · simp [h1]
+
+theorem RConn.readAllLoop_bounded (chunk fuel : Nat) : ∀ (c : RConn) (acc : Bytes),
+    (RConn.readAllLoop fuel c chunk acc).1.length ≤ acc.length + c.rem ∧
+    (RConn.readAllLoop fuel c chunk acc).2.2.limit = c.limit := by
+  induction fuel with
+  | zero => intro c acc; simp [RConn.readAllLoop]
+  | succ fuel ih =>
+    intro c acc
+    unfold RConn.readAllLoop
+    obtain ⟨h1, h2, _, _, h5, h6, _⟩ := RConn.readMsg_bounded c chunk true
+    simp only
+    split
+    · simp only [List.length_append]; exact ⟨by omega, h6⟩
+    · simp only [List.length_append]; exact ⟨by omega, h6⟩
+    · have := ih (c.readMsg chunk).c (acc ++ (c.readMsg chunk).data)
+      simp only [List.length_append] at this
+      exact ⟨by omega, by rw [this.2, h6]⟩
+
+/-- `ReadAll` never returns more than the frame header declared -/
+theorem RConn.readAll_bounded (c : RConn) :
+    c.readAll.1.length ≤ c.rem ∧ c.readAll.2.2.limit = c.limit := by
+  have := RConn.readAllLoop_bounded 512 (c.rem + 2) c []
+  simpa [RConn.readAll] using this
+
+/-- the frame ends before its declared length: `ReadAll` reports the stream's
+    end condition (unexpected EOF for a clean end), never a complete message -/
+theorem RConn.readAllLoop_short (chunk : Nat) (hchunk : 0 < chunk) (fuel : Nat) :
+    ∀ (c : RConn) (acc : Bytes), c.input.length < fuel → c.cur = true → c.err = none →
+      c.input.length < c.rem →
+      (RConn.readAllLoop fuel c chunk acc).1 = acc ++ c.input ∧
+      (RConn.readAllLoop fuel c chunk acc).2.1 =
+        some (if c.tail.rawErr = .eof then .unexpectedEOF else c.tail.rawErr) := by
+  induction fuel with
+  | zero => intro c acc h; omega
+  | succ fuel ih =>
+    intro c acc hf hcur herr hshort
+    unfold RConn.readAllLoop RConn.readMsg
+    have hz : c.rem > 0 := by omega
+    simp only [hcur, herr, and_true, not_true, if_false, hz, if_true]
+    by_cases hemp : c.input.isEmpty
+    · have : c.input = [] := by simpa using hemp
+      simp only [hemp, if_true]
+      cases ht : c.tail <;> simp [StreamEnd.rawErr, this]
+    · simp only [hemp, Bool.false_eq_true, if_false]
+      have hpos : 0 < c.input.length := by
+        cases hc : c.input with
+        | nil => simp [hc] at hemp
+        | cons a t => simp
+      have hlen : (c.input.take (min chunk c.rem)).length = min chunk c.input.length := by
+        simp; omega
+      have := ih { c with input := c.input.drop (min chunk c.rem),
+                          rem := c.rem - (c.input.take (min chunk c.rem)).length }
+        (acc ++ c.input.take (min chunk c.rem)) (by simp; omega) hcur herr (by simp; omega)
+      simp only [hcur, herr] at this
+      constructor
+      · rw [this.1, List.append_assoc, List.take_append_drop]
+      · rw [this.2]
+
+theorem RConn.readAll_short (c : RConn) (hcur : c.cur = true) (herr : c.err = none)
+    (hshort : c.input.length < c.rem) :
+    c.readAll.1 = c.input ∧
+    c.readAll.2.1 = some (if c.tail.rawErr = .eof then .unexpectedEOF else c.tail.rawErr) := by
+  have := RConn.readAllLoop_short 512 (by omega) (c.rem + 2) c [] (by omega) hcur herr hshort
+  simpa [RConn.readAll] using this
 
 end EIO.WT
